@@ -155,8 +155,25 @@ pub fn run(a: &Args) {
             }
             Ok((r, handle)) => {
                 log.lock().unwrap().push("start_ok".to_string());
+                let abort_after = a.opt_u128("abort_after_entries").map(|x| x as usize);
+                if let Some(n) = abort_after {
+                    // abort the actor task once the log shows the first n callback entries (the task is then suspended)
+                    for _ in 0..2000 {
+                        let cnt = log.lock().unwrap().iter().filter(|l| l.starts_with("start:") || l.starts_with("end:")).count();
+                        if cnt >= n {
+                            break;
+                        }
+                        tokio::task::yield_now().await;
+                    }
+                    for _ in 0..5 {
+                        tokio::task::yield_now().await;
+                    }
+                    handle.abort();
+                    log.lock().unwrap().push("task_aborted".to_string());
+                }
                 match tokio::time::timeout(std::time::Duration::from_secs(3), handle).await {
                     Ok(Ok(())) => log.lock().unwrap().push("taskend:ok".to_string()),
+                    Ok(Err(e)) if e.is_cancelled() => log.lock().unwrap().push("taskend:cancelled".to_string()),
                     Ok(Err(_)) => log.lock().unwrap().push("taskend:panic".to_string()),
                     Err(_) => log.lock().unwrap().push("taskend:timeout".to_string()),
                 }
